@@ -4,6 +4,7 @@
 From Coq Require Import List ZArith Bool Lia.
 From RecordUpdate Require Import RecordUpdate.
 From GB Require Import Model.Allowance Model.Batcher Model.Shared Proofs.Tactics Proofs.SharedInv.
+From GB Require Import Gen.Facts.
 Import ListNotations.
 Open Scope Z_scope.
 
@@ -82,6 +83,9 @@ Definition provisioned_capacity (maxcap : Z) : Z := maxcap.
 Definition provisioned_max_capacity (maxcap : Z) : Z := maxcap.
 Theorem C06_provisioned_resource : forall m, provisioned_capacity m = provisioned_max_capacity m.
 Proof. reflexivity. Qed.
+
+Theorem C06_source_constants : V1_partition_limit = max_partitions /\ V2_partition_limit = max_partitions.
+Proof. split; reflexivity. Qed.
 
 (* non-vacuity: reserved 5, shared 7, factor 3 -> 3 partitions; two grants counted *)
 Example C06_nonvacuous :
